@@ -458,10 +458,10 @@ def oracle_consent(evs, meta):
         fresh = bool(opts[x] & OPT_CONSENT)
         for c in range(1, ncomp + 1):
             cs = str(c)
-            ready_t = None; failed_t = None; sel = None
+            ready_t = None; failed_t = None; sel = None; sel_t = None
             for e in evs:
                 if e.kind == "sig" and e.f[0] == str(x) and e.f[1] == "selected-pair" and e.f[3] == cs:
-                    sel = (e.f[4], e.f[5])
+                    sel = (e.f[4], e.f[5]); sel_t = e.t
                 if e.kind == "sig" and e.f[0] == str(x) and e.f[1] == "state" and e.f[3] == cs:
                     if e.f[4] == "READY" and ready_t is None:
                         ready_t = e.t
@@ -471,7 +471,7 @@ def oracle_consent(evs, meta):
                 if meta["kind"] != "consent-revoke":
                     return "agent %d component %d never became READY on a loss-free network" % (x, c)
                 continue
-            end_t = max(e.t for e in evs)
+            end_t = max(e.t for e in evs if e.kind == "api")     # the agents are destroyed right after the last API call
             # ---- keepalive silence bound on the selected pair
             period = 6000 if (fresh or opts[x] & 0) else 25000
             last = ready_t
@@ -488,7 +488,14 @@ def oracle_consent(evs, meta):
             # ---- consent expiry: answers delivered to x on the selected pair
             ans = [e.t + delay for e in evs if e.kind == "pkt" and e.f[0] == sel[1] and e.f[1] == sel[0] and e.f[2] in ("ok", "dup")
                    and "stun" in e.f and ("c2" in e.f) and e.t + delay >= ready_t - 2000]
-            got403 = [e.t + delay for e in evs if e.kind == "pkt" and e.f[0] == sel[1] and e.f[1] == sel[0] and e.f[2] in ("ok", "dup") and "err=403" in e.f]
+            # 403 answers to requests sent once the pair was selected (answers to transactions of checks that were already
+            # completed or cancelled by then are unmatched responses, which the agent rightly ignores)
+            req_t = {}
+            for e in evs:
+                if e.kind == "pkt" and e.f[0] == sel[0] and e.f[1] == sel[1] and "c0" in e.f:
+                    req_t.setdefault([w for w in e.f if w.startswith("tid=")][0], e.t)
+            got403 = [e.t + delay for e in evs if e.kind == "pkt" and e.f[0] == sel[1] and e.f[1] == sel[0] and e.f[2] in ("ok", "dup") and "err=403" in e.f
+                      and req_t.get([w for w in e.f if w.startswith("tid=")][0], -1) > sel_t and e.t + delay < end_t - 5]
             first_ka = next((e.t for e in evs if e.kind == "pkt" and e.t >= ready_t - 2000 and e.f[0] == sel[0] and e.f[1] == sel[1] and "c0" in e.f), None)
             if got403:
                 t403 = min(got403)
@@ -537,4 +544,112 @@ def oracle_consent(evs, meta):
         for tid, t in reqs.items():
             if tid in answered and not all(answered[tid]):
                 return "agent %d answered the check %s (sent t=%d) without 403 after revoking its consent at t=%d" % (who, tid, t, t_rev)
+    return None
+
+
+# ------------------------------------------------------------------ C14: restart
+ICE_CHARS = set("ABCDEFGHIJKLMNOPQRSTUVWXYZabcdefghijklmnopqrstuvwxyz0123456789+/")
+
+
+def gen_restart(rng, i):
+    """C14: restart (agent- or stream-wide) at a chosen moment — during gathering/signalling, mid-check, READY, with data flowing — on one
+    side first or on both, repeated up to five times, under a C01 network policy; after the last restart the applications exchange the new
+    credentials and candidates and the session must converge as in C01; a check authenticated with the pre-restart credentials is injected."""
+    ncomp = rng.choice([1, 1, 2])
+    opts = tuple(rng.choice([0, OPT_REGULAR]) for _ in (0, 1))
+    ctl = rng.choice([(1, 0), (0, 1), (1, 1), (0, 0)])
+    na, nb = rng.choice([1, 1, 2]), rng.choice([1, 1, 2])
+    ips = (tuple("10.0.0.%d" % (k + 1) for k in range(na)), tuple("10.0.1.%d" % (k + 1) for k in range(nb)))
+    ops = two_agents(rng, 0, opts, ctl, ips, ncomp)
+    ops.append("net,%s,%s,%d,%d,%d" % (rng.choice([0, 0, 0.1, 0.3]), rng.choice([0, 0.1]), rng.choice([1, 5, 20]), rng.choice([1, 30, 120]), rng.choice([2, 3])))
+    ops += ["getcreds,0,1", "getcreds,1,1", "gather,0,1", "gather,1,1"]
+    nrest = rng.randrange(1, 6)
+    for r in range(nrest):
+        # where in the session does this restart hit?
+        phase = rng.choice(["gathering", "signalling", "midcheck", "ready", "data"])
+        if phase == "gathering":
+            ops.append("run,%d" % rng.choice([0, 1]))
+        else:
+            sig = signalling(rng, ncomp)
+            if phase == "signalling":
+                sig = sig[:rng.randrange(1, len(sig) + 1)]
+                ops += sig
+            elif phase == "midcheck":
+                ops += sig + ["run,%d" % rng.choice([20, 45, 130, 400])]
+            else:
+                ops += sig + ["run,%d" % rng.choice([5000, 9000])]
+                if phase == "data":
+                    ops += ["send,%d,1,%d,%d,%d" % (rng.randrange(2), rng.randrange(1, ncomp + 1), rng.choice([10, 1200]), rng.randrange(200)) for _ in range(3)]
+        first = rng.randrange(2)
+        both = True    # an ICE restart involves both sides ("on one side first or on both"): the second follows after a random delay
+        rop = (lambda a: "restart,%d" % a) if rng.random() < 0.6 else (lambda a: "restart_stream,%d,1" % a)
+        ops += [rop(first), "getcreds,%d,1" % first] + ["remotecands,%d,1,%d" % (first, c) for c in range(1, ncomp + 1)]
+        if rng.random() < 0.5:
+            ops.append("run,%d" % rng.choice([0, 10, 200, 2000]))
+        ops.append("oldcheck,%d" % first)
+        if both:
+            if rng.random() < 0.5:
+                ops.append("run,%d" % rng.choice([1, 30, 300, 2500]))
+            ops += [rop(1 - first), "getcreds,%d,1" % (1 - first), "oldcheck,%d" % (1 - first)]
+        ops += ["run,%d" % rng.choice([1, 40]), "gather,0,1", "gather,1,1", "run,5"]
+        if not both:
+            # the side that did not restart still holds the old remote credentials: the application re-signals everything anyway
+            pass
+    ops += signalling(rng, ncomp) + ["run,%d" % rng.choice([8000, 15000]), "digest", "run,6000", "digest"]
+    ops += ["send,0,1,1,100,3", "send,1,1,1,100,4", "run,1000"] + final_queries(ncomp)
+    return "rst%d %s" % (i, " ".join(ops)), {"kind": "restart", "ncomp": ncomp, "nrest": nrest}
+
+
+def oracle_restart(evs, meta):
+    seen = {"0": [], "1": []}
+    for k, e in enumerate(evs):
+        if e.kind == "api" and e.f[1] == "local_credentials":
+            if e.f[3] != "=1":
+                return "nice_agent_get_local_credentials failed"
+            u, p = e.f[4], e.f[5]
+            if not (4 <= len(u) <= 256 and set(u) <= ICE_CHARS):
+                return "local ufrag %r is not 4*256ice-char" % u
+            if not (22 <= len(p) <= 256 and set(p) <= ICE_CHARS):
+                return "local password %r is not 22*256ice-char" % p
+            seen[e.f[0]].append((u, p))
+        if e.kind == "api" and e.f[1] in ("restart", "restart_stream"):
+            if e.f[-1] != "=1":
+                return "restart returned FALSE"
+            a = e.f[0]
+            # the very next getcreds of this agent must differ from all earlier ones
+            nxt = next((x for x in evs[k + 1:] if x.kind == "api" and x.f[0] == a and x.f[1] == "local_credentials"), None)
+            if nxt is not None:
+                cur = (nxt.f[4], nxt.f[5])
+                if any(cur[0] == o[0] or cur[1] == o[1] for o in seen[a]):
+                    return "credentials after restart %r repeat an earlier ufrag or password of agent %s" % (cur, a)
+            # components announced GATHERING again (unless they already were)
+            # collected from the signals emitted between this call and the next API call of that agent
+            sigs_ = []
+            for x in evs[k + 1:]:
+                if x.kind == "api":
+                    break
+                if x.kind == "sig" and x.f[0] == a and x.f[1] == "state":
+                    sigs_.append((x.f[3], x.f[4]))
+            prev_states = {}
+            for x in evs[:k]:
+                if x.kind == "sig" and x.f[0] == a and x.f[1] == "state":
+                    prev_states[x.f[3]] = x.f[4]
+            for c, stt in prev_states.items():
+                if stt != "GATHERING" and (c, "GATHERING") not in sigs_:
+                    return "restart of agent %s did not announce component %s (was %s) as GATHERING" % (a, c, stt)
+        if e.kind == "api" and e.f[1] == "remote_candidates":
+            # queried right after the restart of that agent
+            prev = next((x for x in reversed(evs[:k]) if x.kind == "api" and x.f[0] == e.f[0] and x.f[1] not in ("local_credentials", "remote_candidates")), None)
+            if prev is not None and prev.f[1] in ("restart", "restart_stream") and e.f[-1] != "n=0":
+                return "agent %s still holds %s remote candidates right after a restart" % (e.f[0], e.f[-1])
+    # checks with pre-restart credentials
+    old = {}
+    for e in evs:
+        if e.kind == "atk" and e.f[0] == "oldcheck":
+            old[[w for w in e.f if w.startswith("tid=")][0]] = e
+    for e in evs:
+        if e.kind == "pkt" and "stun" in e.f and "c2" in e.f:
+            tid = [w for w in e.f if w.startswith("tid=")][0]
+            if tid in old and e.f[0] == old[tid].f[2]:
+                return "a check authenticated with the pre-restart password was answered with a success response (%s)" % tid
     return None
